@@ -461,6 +461,31 @@ def batch_grid(v=(1, 2)):
             for i in range(0, len(steps), 40)]
 
 
+def derive_grid(v=(1, 2)):
+    """DeriveKey from two or three canary objects in every order (keys, a secret, an HMAC key), with
+    and without derivation data in the request: the objects that are looked at on the way to the
+    one that supplies the data are secrets too."""
+    import itertools
+    la = [["Cryptographic Length", 128], ["Cryptographic Algorithm", "AES"], ["Cryptographic Usage Mask", 12]]
+    steps = []
+    objs = ["$u:0", "$u:2", "$u:7", "$u:1"]
+    n = 0
+    for k in (2, 3):
+        for uids in itertools.permutations(objs, k):
+            for me, extra in (("HMAC", {}), ("HASH", {}), ("PBKDF2", {"salt": "0102", "iter": 2}),
+                              ("NIST800_108_C", {})):
+                for data in (None, "$c:derivation-data:dd%d:16"):
+                    n += 1
+                    dp = dict({"params": {"hash": "SHA_256"}}, **extra)
+                    if data:
+                        dp["data"] = data % n
+                    steps.append({"label": "derive/%d-objects-%s-%s" % (k, me, "data" if data else "no-data"),
+                                  "req": {"v": list(v), "items": [{"op": "DeriveKey", "uids": list(uids), "method": me,
+                                                                   "attrs": la, "dp": dp}]}})
+    return [history("derive-%d.%d#%d" % (v[0], v[1], i // 48), steps[i:i + 48], v)
+            for i in range(0, len(steps), 48)]
+
+
 def internal_error_histories():
     """The stored General-Failure triggers of C13 (known/C13-*.json, whether still open or fixed in
     the repo meanwhile) with their secret fields made canaries: once on the bare store, once after
@@ -577,6 +602,8 @@ def grid_histories(tier):
             "obj": {"type": "SecretData", "value": "$c:secret-data:lid2:24", "dtype": "PASSWORD"}})],
         (1, 2), 30, long_who)
     out.append(many_keys_history())
+    for v in ((1, 2),) if quick else ((1, 2), (2, 0)):
+        out += derive_grid(v)
     out += internal_error_histories()
     # control: with DEBUG switched on the session logs every frame in hex - records below INFO
     # must be seen by the handler and left out of the verdict
